@@ -3,8 +3,11 @@
    notifyBlock, notifyBlockWithFilter, extractBlockMatches, updateFilter,
    the retry queue) running against an environment that changes between any
    two ChainSource calls.  The model reproduces the code that exists,
-   including the catch-up branch that announces the block found by height
-   without a parent check (finding F10).  No proofs in this file.
+   including the repair of finding F10: the catch-up branch checks that the
+   block found by height builds on the current block and otherwise
+   disconnects the current block and steps back to its parent.  Filter
+   matching is a parameter [fmatch] of the step function (the honest filter
+   is [matches]).  No proofs in this file.
 
    Granularity: the rescan goroutine is always blocked either inside one
    ChainSource call (pc says which; the call returns when the event [TCall r]
@@ -54,7 +57,7 @@ Inductive uctx := USelect | UDrain.              (* who called updateFilter *)
 
 Inductive pcT :=
 | PIdle | PSelect
-| PBest | PHdr | PSub | PFilC | PBlkC            (* catch-up branch *)
+| PBest | PHdr | PBack | PSub | PFilC | PBlkC    (* catch-up branch; PBack: GetBlockHeader(prev) after a non-child *)
 | PFH (h : hdr) (c : ctx) | PFil (h : hdr) (c : ctx) | PBlk (h : hdr) (c : ctx)
 | PRew (target : Z) (c : uctx)                   (* updateFilter: GetBlockHeader(prev) *)
 | PDone | PDead.
@@ -75,7 +78,7 @@ Record obs := { ocbs : list cb; orecv : bool; oblk : blocked }.
 
 Record watch := { waddrs : list N; winputs : list (outpoint * N); wlist : list N }.
 Record rcfg := { startT : Z; endb : option (N * Z) }.
-Record gflags := { g_f10 : bool; g_nf : bool; g_coll : bool }.
+Record gflags := { g_nf : bool; g_coll : bool }.
 
 Record state := {
   (* environment *)
@@ -113,12 +116,10 @@ Definition set_out x r s := {| chain := chain s; seen := seen s; pend := pend s;
 Definition set_told x s := {| chain := chain s; seen := seen s; pend := pend s; sub := sub s; pc := pc s; cur := cur s; curh := curh s; current := current s; scanning := scanning s; retryq := retryq s; armed := armed s; w := w s; cfg := cfg s; outq := outq s; recvd := recvd s; told := x; gf := gf s |}.
 Definition set_gf x s := {| chain := chain s; seen := seen s; pend := pend s; sub := sub s; pc := pc s; cur := cur s; curh := curh s; current := current s; scanning := scanning s; retryq := retryq s; armed := armed s; w := w s; cfg := cfg s; outq := outq s; recvd := recvd s; told := told s; gf := x |}.
 
-Definition flag_f10 (b : bool) s :=
-  set_gf {| g_f10 := g_f10 (gf s) || b; g_nf := g_nf (gf s); g_coll := g_coll (gf s) |} s.
 Definition flag_nf s :=
-  set_gf {| g_f10 := g_f10 (gf s); g_nf := true; g_coll := g_coll (gf s) |} s.
+  set_gf {| g_nf := true; g_coll := g_coll (gf s) |} s.
 Definition flag_coll (b : bool) s :=
-  set_gf {| g_f10 := g_f10 (gf s); g_nf := g_nf (gf s); g_coll := g_coll (gf s) || b |} s.
+  set_gf {| g_nf := g_nf (gf s); g_coll := g_coll (gf s) || b |} s.
 
 (* ------------------------------------------------------------- helpers *)
 Definition memN (x : N) (l : list N) : bool := existsb (N.eqb x) l.
@@ -286,6 +287,11 @@ Definition start (c : config) (s : state) : state :=
             end
   end.
 
+Section WithFilter.
+(* the answer of the fetched basic filter to "does any item of the watch
+   list occur in this block?" (GCS MatchAny); [matches] is the honest one *)
+Variable fmatch : list N -> block -> bool.
+
 Definition do_call (r : res) (s : state) : state :=
   match pc s with
   | PBest =>
@@ -299,11 +305,19 @@ Definition do_call (r : res) (s : state) : state :=
     match by_height (curh s + 1) (chain s) with
     | None => set_pc PDead s
     | Some h =>
-      (* DEFECT SITE (F10): no check that h builds on the current block *)
-      let s1 := flag_f10 (negb (N.eqb (hprev h) (hid (cur s)))) s in
-      let s2 := scan_latch h (advance h s1) in
+      (* the block at the next height must build on the current block;
+         otherwise the current block is stale (repair of F10) *)
+      if negb (N.eqb (hprev h) (hid (cur s))) then set_pc PBack s
+      else
+      let s2 := scan_latch h (advance h s) in
       if negb (is_nil (wlist (w s2))) && scanning s2 then set_pc PFilC s2
       else goto_top (emit_conn h (curh s2) [] s2)
+    end
+  | PBack =>
+    (* GetBlockHeader(curHeader.PrevBlock), then handleBlockDisconnected *)
+    match by_id (hprev (cur s)) (chain s) with
+    | None => set_pc PDead s
+    | Some p => goto_top (set_cur p (curh s - 1) (emit_disc s))
     end
   | PFilC =>
     match r with
@@ -313,7 +327,7 @@ Definition do_call (r : res) (s : state) : state :=
       match find_block (hid (cur s)) (seen s) with
       | None => set_pc PDead s
       | Some b =>
-        if matches (wlist (w s)) b then set_pc PBlkC s
+        if fmatch (wlist (w s)) b then set_pc PBlkC s
         else goto_top (emit_conn (cur s) (curh s) [] s)
       end
     end
@@ -334,7 +348,7 @@ Definition do_call (r : res) (s : state) : state :=
   | PFil h c =>
     match r, find_block (hid h) (seen s) with
     | ROk, Some b =>
-      if matches (wlist (w s)) b then set_pc (PBlk h c) s
+      if fmatch (wlist (w s)) b then set_pc (PBlk h c) s
       else success c (advance h (emit_conn h (curh s + 1) [] s))
     | _, _ => retry_later h c s
     end
@@ -419,6 +433,7 @@ Definition blocked_of (s : state) : blocked :=
   | PSelect => BSelect
   | PBest => BCall 1 0
   | PHdr => BCall 2 (curh s + 1)
+  | PBack => BCall 7 (Z.of_N (hprev (cur s)))
   | PSub => BCall 3 (curh s)
   | PFH _ _ => BCall 4 (curh s + 1)
   | PFilC => BCall 5 (Z.of_N (hid (cur s)))
@@ -445,7 +460,7 @@ Definition init (gid : N) (gtime : Z) : state :=
      w := {| waddrs := []; winputs := []; wlist := [] |};
      cfg := {| startT := 0; endb := None |};
      outq := []; recvd := false; told := (gid, 0);
-     gf := {| g_f10 := false; g_nf := false; g_coll := false |} |}.
+     gf := {| g_nf := false; g_coll := false |} |}.
 
 Fixpoint run (s : state) (evs : list ev) : state * list obs :=
   match evs with
@@ -455,3 +470,4 @@ Fixpoint run (s : state) (evs : list ev) : state * list obs :=
     let '(s2, os) := run s1 r in
     (s2, o :: os)
   end.
+End WithFilter.
